@@ -13,23 +13,59 @@
                  replayed registry must be equal whenever Spec's unambiguity condition holds. *)
 From Coq Require Import List Arith Bool.
 Import ListNotations.
-From ZI Require Export Tie.RegCommon Model.Bookkeeping Spec.Bookkeeping.
+From ZI Require Export Tie.RegCommon Model.Trie Model.Bookkeeping Spec.Bookkeeping.
 
 Definition rb_order := (list (akey * value) * list (skey * value))%type.
+(* the private layout of one registry, canonicalised by the driver: _adapters, _subscribers (nested
+   dictionaries in dict order, keys as in Model/Trie.v) and _provided sorted by interface *)
+Definition layout := (list (trie value) * list (trie (list value)) * list (spec * nat))%type.
 (* r0, flavour of the second registry, raw listings of r0, queries (addressed to r0),
-   answers of r0, answers of the replayed registry *)
-Definition replay_t := (nat * flavour * rb_order * list rop * list (list nat) * list (list nat))%type.
-Definition case_t := (graph * list bool * list rop * list (list nat) * list rb_order * replay_t)%type.
+   answers of r0, answers of the replayed registry, layout of the replayed registry *)
+Definition replay_t := (nat * flavour * rb_order * list rop * list (list nat) * list (list nat) * layout)%type.
+(* world, history, answers, raw listing before every rebuild(), layout of the mutated registry after
+   every storage mutation (register / unregister / subscribe / unsubscribe / rebuild), replay stream *)
+Definition case_t := (graph * list bool * list rop * list (list nat) * list rb_order * list layout * replay_t)%type.
 
 (* ------------------------------------------------------------------ model side *)
+Definition value_eqb (a b : value) : bool := Nat.eqb (vid a) (vid b) && Nat.eqb (veq a) (veq b).
+Definition lvalue_eqb := list_eqb value_eqb.
+
+Definition enc_regs_raw (l : list (akey * value)) : list nat :=
+  flat_map (fun kv => enc_akey (fst kv) ++ [vid (snd kv)]) l.
+Definition enc_subs_raw (l : list (skey * value)) : list nat :=
+  flat_map (fun kv => enc_skey (fst kv) ++ [vid (snd kv)]) l.
+
+Definition sorted_cnt (c : list (spec * nat)) : list nat :=
+  flat_map (fun kv => fst kv ++ [snd kv]) (sort_by_key (map (fun kv => ([fst kv], snd kv)) c)).
+
+Definition layout_matches (t : treg) (l : layout) : bool :=
+  let '(ad, su, pc) := l in
+  list_eqb (trie_eqb value_eqb) (t_adapters t) ad
+  && list_eqb (trie_eqb lvalue_eqb) (t_subscribers t) su
+  && lnat_eqb (sorted_cnt (t_provided t)) (sorted_cnt pc).
+
+Definition tnth (ts : list treg) (r : nat) : treg := nth r ts t_empty.
+Fixpoint tset (ts : list treg) (r : nat) (x : treg) : list treg :=
+  match ts, r with
+  | [], _ => []
+  | _ :: ts', 0 => x :: ts'
+  | y :: ts', S r' => y :: tset ts' r' x
+  end.
+
 Section Model9.
   Variable W : world.
 
+  (* the enumeration order of the nested-dictionary model is the implementation's *)
+  Definition listing_exact (t : treg) (o : rb_order) : bool :=
+    lnat_eqb (enc_regs_raw (fst o)) (enc_regs_raw (t_allRegistrations t))
+    && lnat_eqb (enc_subs_raw (snd o)) (enc_subs_raw (t_allSubscriptions t)).
+
+  (* ... and a permutation of the flat model's, keeping each subscription key's order *)
   Definition listing_matches (g : reg) (o : rb_order) : bool :=
     lnat_eqb (enc_allregs (fst o)) (enc_allregs (allRegistrations g))
     && lnat_eqb (enc_allsubs (snd o)) (enc_allsubs (allSubscriptions g)).
 
-  (* RegSys.step's ORebuild branch with the replay done in the observed order *)
+  (* RegSys.step's ORebuild branch with the flat replay done in the TRIE model's enumeration order *)
   Definition rebuild_step (s : sys) (r : nat) (o : rb_order) : sys * list nat :=
     let x := get s r in
     if listing_matches (rs_reg x) o then
@@ -40,17 +76,81 @@ Section Model9.
       (after_bump s1 r, [])
     else (s, [777]).
 
-  Fixpoint run9 (s : sys) (ops : list rop) (orders : list rb_order) : sys * list (list nat) :=
+  (* the answer of a query computed on the nested-dictionary model of a base-less registry *)
+  Definition trie_answer (t : treg) (o : rop) : option (list nat) :=
+    match o with
+    | QLookup _ req p (NStr n) =>
+        Some (match t_uncached_lookup W [t] req p n with Some v => [1; vid v] | None => [0] end)
+    | QLookup1 _ x p (NStr n) =>
+        Some (match t_uncached_lookup W [t] [x] p n with Some v => [1; vid v] | None => [0] end)
+    | QLookupAll _ req p => Some (enc_pairs (t_uncached_lookupAll W [t] req p))
+    | QNames _ req p => Some (enc_names (map fst (t_uncached_lookupAll W [t] req p)))
+    | QSubscriptions _ req p => Some (map vid (t_uncached_subscriptions W [t] req p))
+    | QRegistered _ req p n => Some (match t_registered t req p n with Some v => [vid v] | None => [] end)
+    | QSubscribed _ req p v => Some [if t_subscribed t req p v then 1 else 0]
+    | QAllRegistrations _ => Some (enc_allregs (t_allRegistrations t))
+    | QAllSubscriptions _ => Some (enc_allsubs (t_allSubscriptions t))
+    | _ => None
+    end.
+
+  Definition op_reg (o : rop) : option nat :=
+    match o with
+    | QLookup r _ _ _ | QLookup1 r _ _ _ | QLookupAll r _ _ | QNames r _ _ | QSubscriptions r _ _
+    | QRegistered r _ _ _ | QSubscribed r _ _ _ | QAllRegistrations r | QAllSubscriptions r => Some r
+    | _ => None
+    end.
+
+  (* a query's flat answer [a] must also be the nested-dictionary model's (registries without bases) *)
+  Definition trie_agrees (s : sys) (ts : list treg) (o : rop) (a : list nat) : bool :=
+    match op_reg o with
+    | Some r => match rs_bases (get s r), trie_answer (tnth ts r) o with
+                | [], Some b => lnat_eqb a b
+                | _, _ => true
+                end
+    | None => true
+    end.
+
+  (* lockstep: the registry system on flat storage (Model/RegSys) and one nested-dictionary storage
+     per registry.  Flags instead of answers: 777 flat/trie listings differ, 778 no raw listing,
+     779 layout differs, 780 raw listing order differs, 781 trie answer differs, 782 no layout *)
+  Fixpoint run9 (s : sys) (ts : list treg) (ops : list rop) (orders : list rb_order) (lays : list layout)
+    : sys * list treg * list (list nat) :=
     match ops with
-    | [] => (s, [])
-    | ORebuild r :: ops' =>
-        match orders with
-        | o :: orders' => let '(s', a) := rebuild_step s r o in
-                          let '(s'', rest) := run9 s' ops' orders' in (s'', a :: rest)
-        | [] => (s, [[778]])
+    | [] => (s, ts, [])
+    | o :: ops' =>
+        match as_bop o with
+        | Some (r, b) =>
+            let t := tnth ts r in
+            let t' := t_bstep W t b in
+            match lays with
+            | [] => (s, ts, [[782]])
+            | lay :: lays' =>
+                let lay_ok := layout_matches t' lay in
+                match b with
+                | BRebuild =>
+                    match orders with
+                    | ob :: orders' =>
+                        let mine := (t_allRegistrations t, t_allSubscriptions t) in
+                        let '(s', a) := rebuild_step s r mine in
+                        let a' := if listing_exact t ob then (if lay_ok then a else [779]) else [780] in
+                        let '(s'', ts'', rest) := run9 s' (tset ts r t') ops' orders' lays' in
+                        (s'', ts'', a' :: rest)
+                    | [] => (s, ts, [[778]])
+                    end
+                | _ =>
+                    let '(s', a) := step W call s o in
+                    let a' := if lay_ok then a else [779] in
+                    let '(s'', ts'', rest) := run9 s' (tset ts r t') ops' orders lays' in
+                    (s'', ts'', a' :: rest)
+                end
+            end
+        | None =>
+            let '(s', a) := step W call s o in
+            let ts' := match o with ONewReg _ _ => ts ++ [t_fresh 0] | _ => ts end in
+            let a' := if trie_agrees s ts o a then a else 781 :: a in
+            let '(s'', ts'', rest) := run9 s' ts' ops' orders lays in
+            (s'', ts'', a' :: rest)
         end
-    | o :: ops' => let '(s', a) := step W call s o in
-                   let '(s'', rest) := run9 s' ops' orders in (s'', a :: rest)
     end.
 
   Definition retarget (r' : nat) (o : rop) : rop :=
@@ -67,34 +167,47 @@ Section Model9.
     | o => o
     end.
 
-  (* the replay stream as a history: new registry, register of every tuple of the raw listing,
+  (* the replay stream as a history: new registry, register of every tuple of the listing,
      subscribe likewise, then the queries *)
   Definition replay_ops (r2 : nat) (fl : flavour) (o : rb_order) : list rop :=
     ONewReg fl []
     :: map (fun kv => let '(req, p, n) := fst kv in ORegister r2 (map Some req) p n (Some (snd kv))) (fst o)
     ++ map (fun kv => OSubscribe r2 (map Some (fst (fst kv))) (snd (fst kv)) (snd kv)) (snd o).
 
-  Definition model9 (ops : list rop) (orders : list rb_order) (rp : replay_t)
+  (* queries only: flat answers, flagged where the nested-dictionary model disagrees *)
+  Fixpoint runq (s : sys) (ts : list treg) (qs : list rop) : sys * list (list nat) :=
+    match qs with
+    | [] => (s, [])
+    | o :: qs' => let '(s', a) := step W call s o in
+                  let a' := if trie_agrees s ts o a then a else 781 :: a in
+                  let '(s'', rest) := runq s' ts qs' in (s'', a' :: rest)
+    end.
+
+  Definition model9 (ops : list rop) (orders : list rb_order) (lays : list layout) (rp : replay_t)
     : list (list nat) * bool * list (list nat) * list (list nat) :=
-    let '(r0, fl, o, qs, _, _) := rp in
-    let '(s1, main) := run9 [] ops orders in
-    let a1 := run W call s1 qs in
-    let s2 := final W call s1 qs in
-    let lm := listing_matches (rs_reg (get s2 r0)) o in
+    let '(r0, fl, o, qs, _, _, lay2) := rp in
+    let '(s1, ts1, main) := run9 [] [] ops orders lays in
+    let '(s2, a1) := runq s1 ts1 qs in
+    let t0 := tnth ts1 r0 in
+    let mine := (t_allRegistrations t0, t_allSubscriptions t0) in
     let r2 := length s2 in
-    let s3 := final W call s2 (replay_ops r2 fl o) in
-    let a2 := run W call s3 (map (retarget r2) qs) in
-    (main, lm, a1, a2).
+    (* the second registry: flat, through the registry system; nested, by t_replay *)
+    let s3 := final W call s2 (replay_ops r2 fl mine) in
+    let t2 := t_replay W (t_fresh 0) (fst mine) (snd mine) in
+    let ts2 := ts1 ++ repeat t_empty (r2 - length ts1) ++ [t2] in
+    let '(_, a2) := runq s3 ts2 (map (retarget r2) qs) in
+    let ok := listing_exact t0 o && listing_matches (rs_reg (get s2 r0)) mine && layout_matches t2 lay2 in
+    (main, ok, a1, a2).
 End Model9.
 
 Definition model_out (c : case_t) :=
-  let '(g, ifs, ops, _, orders, rp) := c in model9 (mk_world g ifs) ops orders rp.
+  let '(g, ifs, ops, _, orders, lays, rp) := c in model9 (mk_world g ifs) ops orders lays rp.
 
 Definition check_model (c : case_t) : bool :=
-  let '(g, ifs, ops, obs, orders, rp) := c in
-  let '(_, _, _, _, o1, o2) := rp in
-  let '(main, lm, a1, a2) := model9 (mk_world g ifs) ops orders rp in
-  llnat_eqb main obs && lm && llnat_eqb a1 o1 && llnat_eqb a2 o2.
+  let '(g, ifs, ops, obs, orders, lays, rp) := c in
+  let '(_, _, _, _, o1, o2, _) := rp in
+  let '(main, ok, a1, a2) := model9 (mk_world g ifs) ops orders lays rp in
+  llnat_eqb main obs && ok && llnat_eqb a1 o1 && llnat_eqb a2 o2.
 
 (* ------------------------------------------------------------------ spec side *)
 Fixpoint dedupe {A} (eqb : A -> A -> bool) (l : list A) : list A :=
@@ -212,7 +325,7 @@ Fixpoint zip3 {A B C} (l1 : list A) (l2 : list B) (l3 : list C) : list (A * B * 
   end.
 
 Definition spec_replay (W : world) (L : led) (rp : replay_t) : bool :=
-  let '(r0, _, o, qs, a1, a2) := rp in
+  let '(r0, _, o, qs, a1, a2, _) := rp in
   Nat.eqb (length qs) (length a1) && Nat.eqb (length qs) (length a2)
   && lnat_eqb (enc_allregs (fst o)) (enc_allregs (live_regs L r0))
   && lnat_eqb (enc_allsubs (snd o)) (enc_allsubs (live_subs L r0))
@@ -228,13 +341,13 @@ Definition spec_replay (W : world) (L : led) (rp : replay_t) : bool :=
 Definition final_led (ops : list rop) : led := fold_left led_step ops led0.
 
 Definition check_spec (c : case_t) : bool :=
-  let '(g, ifs, ops, obs, _, rp) := c in
+  let '(g, ifs, ops, obs, _, _, rp) := c in
   let W := mk_world g ifs in
   spec_walk W led0 [] [] ops obs && spec_replay W (final_led ops) rp.
 
 (* how many lookups of the case were compared across rebuild()/replay (coverage diagnostics) *)
 Definition n_unambiguous (c : case_t) : nat :=
-  let '(g, ifs, ops, _, _, rp) := c in
-  let '(_, _, _, qs, _, _) := rp in
+  let '(g, ifs, ops, _, _, _, rp) := c in
+  let '(_, _, _, qs, _, _, _) := rp in
   let W := mk_world g ifs in
   length (filter (fun q => match unambiguous W (final_led ops) q with Some true => true | _ => false end) qs).
